@@ -25,13 +25,14 @@ class BloomSystem(System):
     name = "bloom"
     serves = ("C01", "C05", "C06", "C14", "C19")
     rule = (
-        "BloomFilter(est_elements n, rate p) for n=1..12 x 6 rates (thorough: n<=40, 9 rates incl. the float32 floor "
-        "1.4e-45 = 149 hashes) x 6 hash strategies (table with chosen positions, fnv-1a, md5, sha256, two decorator "
-        "built); 6 keys (str, bytes, non-ASCII, two sharing a cell, coinciding positions, last cell, hashes >= 2^63); "
-        "events add(key) / reload through bytes, hex string, file path (the loaded object replaces the object) / "
-        "union with a fixed second filter (result replaces the object) / clear; all sequences to the depth bound, "
-        "de-duplicated on full object state; non-trivial = state in which at least two keys share a set cell or that "
-        "was reached through a reload/union."
+        'BloomFilter(est_elements n, rate p) for n=1..12 x 6 rates (thorough: n<=40, 9 rates incl. the float32 floor '
+        '1.4e-45 = 149 hashes) x 6 hash strategies (table with chosen positions, fnv-1a, md5, sha256, two decorator '
+        'built); 6 keys (str, bytes, non-ASCII, two sharing a cell, coinciding positions, last cell, hashes >= 2^63); '
+        'events add(key) / reload through bytes, hex string, file path (the loaded object replaces the object) / '
+        'union with a fixed second filter, with an empty filter (result replaces the object), with a filter whose geometry '
+        'differs only inside the last byte (either direction; must not yield a filter that forgets keys) / clear; all sequences '
+        'to the depth bound, de-duplicated on full object state; non-trivial = state in which at least two keys share a set '
+        'cell or that was reached through a reload/union.'
     )
 
     def configs(self, prop, tier, seed):
